@@ -193,6 +193,9 @@ class Sym:
         if k == "discriminant":
             e = self.read_place(st, rv["place"])
             if e[0] == "agg" and e[1] == "adt":
+                d = self._variant_discr(e[2], e[3])
+                if d is not None:
+                    return ("int", d)
                 return ("variant", e[2], e[3])
             return ("discr", e, rv["place"].get("ty"))
         if k == "aggregate":
@@ -405,7 +408,10 @@ class Sym:
                 is_pure = short in self.pure and not any(
                     (a["k"] in ("copy", "move") and (a["place"].get("ty", "").startswith("&mut")))
                     for a in t["args"])
-                if is_pure and short not in FRESH:
+                folded = fold_pure(short, args) if is_pure else None
+                if folded is not None:
+                    res = folded
+                elif is_pure and short not in FRESH:
                     vers = tuple(st.ver.get(a, 0) for a in args)
                     res = ("pure", name, args, vers)
                 else:
@@ -435,6 +441,28 @@ class Sym:
             if v["name"] == vname:
                 return v["discr"] if v["discr"] is not None else i
         return None
+
+
+def fold_pure(short, args):
+    """Known results of pure std adaptors on freshly built aggregates (keeps infeasible `?` edges out)."""
+    if not args:
+        return None
+    a = args[0]
+    while a[0] == "ref":
+        a = a[1]
+    if a[0] != "agg" or a[1] != "adt":
+        return None
+    v = a[3]
+    if short == "branch":
+        if v in ("Ok", "Some"):
+            return ("agg", "adt", "core::ops::ControlFlow", "Continue", a[4])
+        if v in ("Err", "None"):
+            return ("agg", "adt", "core::ops::ControlFlow", "Break", (a,))
+    if short in ("is_some", "is_ok") and v in ("Some", "Ok", "None", "Err"):
+        return ("int", int(v in ("Some", "Ok")))
+    if short in ("is_none", "is_err") and v in ("Some", "Ok", "None", "Err"):
+        return ("int", int(v in ("None", "Err")))
+    return None
 
 
 def _mentions(key, tag):
